@@ -223,6 +223,16 @@ func isoFamilyCases(thorough bool, structural bool, visit func(c isoCase)) {
 			}})
 		}
 	}
+	// names that are string prefixes of sibling names, with nesting below the longer one
+	visit(isoCase{desc: "prefix-related directory names", family: "prefixnames", build: func(dir string) {
+		for _, p := range []string{"data/x.bin", "data_en/voice/v.bin", "data_en/voice/deep/w.bin", "dat/y.bin", "dir1/a/f.bin", "dir10/a/g.bin", "dir10/b/h.bin", "dir1/a0/i.bin", "data.bin", "dir"} {
+			if strings.Contains(filepath.Base(p), ".") {
+				mkFileAbs(filepath.Join(dir, p), int64(len(p))*100+1, byte(len(p)), baseTime)
+			} else {
+				must(os.MkdirAll(filepath.Join(dir, p), 0o755))
+			}
+		}
+	}})
 	for d := 0; d <= 8; d++ {
 		d := d
 		visit(isoCase{desc: sprintf("chain-depth=%d", d), family: "depth", build: func(dir string) {
@@ -252,9 +262,9 @@ func isoFamilyCases(thorough bool, structural bool, visit func(c isoCase)) {
 		}})
 	}
 	// files around 4 GiB (multi-extent) - sparse
-	bigs := []int64{0xFFFFF800 - 1, 0xFFFFF800, 0xFFFFF800 + 1, 0xFFFFFFFF, 0x100000000, 0x100000001}
+	bigs := []int64{0xFFFFF800 - 1, 0xFFFFF800, 0xFFFFF800 + 1, 0xFFFFFFFF, 0x100000000, 0x100000001, 2*0xFFFFF800 - 1, 2 * 0xFFFFF800, 2*0xFFFFF800 + 1}
 	if thorough {
-		bigs = append(bigs, 2*0xFFFFF800-1, 2*0xFFFFF800, 2*0xFFFFF800+1, 9<<30)
+		bigs = append(bigs, 3*0xFFFFF800, 3*0xFFFFF800+2048, 9<<30)
 	}
 	for _, sz := range bigs {
 		sz := sz
